@@ -147,6 +147,20 @@ func redactNamespace(cmd *orderedmap.OrderedMap[string, any]) {
 	}
 }
 
+// redactNamespaceDocument pseudonymises the string members of the document form of a
+// namespace argument, e.g. {db: "reporting", coll: "daily"} in $merge.into or $out.
+func redactNamespaceDocument(ns *orderedmap.OrderedMap[string, any]) *orderedmap.OrderedMap[string, any] {
+	redacted := orderedmap.NewOrderedMap[string, any]()
+	for el := ns.Front(); el != nil; el = el.Next() {
+		if name, ok := el.Value.(string); ok {
+			redacted.Set(el.Key, HashName(name))
+		} else {
+			redacted.Set(el.Key, el.Value)
+		}
+	}
+	return redacted
+}
+
 func redactCommand(cmd *orderedmap.OrderedMap[string, any], shouldEagerRedact bool) {
 	if cmd == nil {
 		return
@@ -383,6 +397,8 @@ func redactPipelineStage(stage interface{}, redactFieldNames bool, keyPath []str
 						switch vTyped := v.(type) {
 						case string:
 							newMap.Set(redactedKey, HashName(vTyped))
+						case *orderedmap.OrderedMap[string, any]:
+							newMap.Set(redactedKey, redactNamespaceDocument(vTyped))
 						default:
 							newMap.Set(redactedKey, v)
 						}
@@ -470,6 +486,8 @@ func redactPipelineStage(stage interface{}, redactFieldNames bool, keyPath []str
 										switch subVTyped := subV.(type) {
 										case string:
 											newSubMap.Set(subK, HashName(subVTyped))
+										case *orderedmap.OrderedMap[string, any]:
+											newSubMap.Set(subK, redactNamespaceDocument(subVTyped))
 										default:
 											newSubMap.Set(subK, subV)
 										}
